@@ -379,7 +379,35 @@ def check_rem_identity(ctx):
     C07.check_identity(ctx, "C13.rem/identity", kinds=("rem",))
 
 
+def check_rmw(ctx, inst="C13.rmw"):
+    """the shared accounting counters are only ever changed by atomic read-modify-write operations (fetch_add / fetch_sub /
+    compare_exchange): a plain store - `usage.store(usage.load().saturating_sub(amount))`, a "clamp at zero", a recomputed total -
+    loses every update another thread made between the load and the store, and the counter never equals the live sum again.
+    Exempt: recovery sets disk_usage once while it owns the store exclusively (&mut self)."""
+    counters = [("Statistics", "memory_usage", ()), ("Statistics", "record_count", ()), ("Statistics", "cache_memory", ()), ("Statistics", "keys_with_ttl", ()),
+                ("Statistics", "disk_usage", ("FeoxStore::scan_and_rebuild_indexes",)), ("MemoryReservation", "usage", ()), ("Record", "extent_state", ())]
+    n_writes = 0
+    for b in ctx.prog.product_bodies():
+        owner = R.owner_fn(ctx.prog, b)
+        if path_matches(owner, "Statistics::reset") or path_matches(owner, "Statistics::new"):
+            continue
+        for n in b.calls():
+            if not R._is_atomic_call(n.ev, R.ATOMIC_WRITES):
+                continue
+            e = R.recv_expr(b, n)
+            for (adt, fld, exempt) in counters:
+                if not e.has_field(adt, fld):
+                    continue
+                n_writes += 1
+                op = R.callee_name(n.ev).rsplit("::", 1)[-1]
+                plain = op.startswith("store") or op.startswith("swap")
+                ok = not plain or any(path_matches(owner, x) for x in exempt)
+                ctx.check(ok, inst, "FIELDW", owner, "%s.%s is changed only by atomic read-modify-write operations" % (adt, fld), b.where(n.id), {"op": op})
+    ctx.check(n_writes >= 20, inst, "anchor", "-", "writes to the accounting counters examined (>= 20, found %d)" % n_writes, None)
+
+
 def check(ctx):
+    check_rmw(ctx)
     check_rem_identity(ctx)
     check_record_fields(ctx)
     check_size_functions(ctx)
